@@ -213,10 +213,37 @@ plan("C21", jobs=lambda tier: sched_jobs("C21", tier), level="exploration", min_
      technique="runtime monitor: bounded-progress (step budget) oracle in solo mode of the token scheduler")
 
 
+plan("C19", jobs=lambda tier: [job("class", "C19", "eval", "vdev", "eval", shards=16, budget_s=40 if tier == "quick" else 300,
+                                   args=["--thorough"] if tier == "thorough" else [])],
+     level="exploration", min_nontrivial=200, nontrivial=classes_nontrivial,
+     rule=("class configurations built as JSON and parsed by the repository's own ClassingConfig: every combination of slot-count kinds "
+           "{zero, one, cores, cores_half, pids} for 1-4 classes (distinct ids, 4 matcher styles) plus the shipped results/classes*.json; for "
+           "cores 1..16, cores/pids 0..64, orders 0..10 and 6 GFP flag sets every generated request is checked (class configured, slot below the "
+           "class's slot count) and a subset is used with a real allocator (no panic, no Argument error). distinct_nontrivial = distinct "
+           "(configuration, cores, class, slot present) outcomes in one shard (maximum over shards)"),
+     technique="runtime monitor: direct check of generated requests + real allocator calls over an enumerated configuration grid")
+
+
+def _c20(prop, tier, seed, t0):
+    from . import tracemon
+    import sys
+    return tracemon.run(prop, tier, seed, t0, sys.modules[__name__])
+
+
+plan("C20", custom=_c20, level="exploration", min_nontrivial=200,
+     rule=("synthetic trace files in the replay binary's own format (enumerated: one allocation of order 1..4, every partial free order/position, "
+           "remaining parts in all permutations / rotations; seeded random: orders 0..10, 1-4 cores, whole and partial frees first/middle/last, "
+           "frees of unknown pfns, re-allocations of a live pfn) run through the real replay binary built with feature verif; its per-call event "
+           "lines, error log and final JSON are judged against a trace model. distinct_nontrivial = distinct traces (event kind/order sequences) replayed"),
+     technique="runtime monitor: trace model over the replay binary's event lines and output")
+
+
 # ------------------------------------------------------------------------------------------------
 # Execution
 
 def binary_for(j):
+    if j["engine"] == "class":
+        return build.vmon_eval()
     return build.vmon(j["geom"], j["profile"], j["variant"])
 
 
@@ -409,6 +436,9 @@ def replay(path):
     except Exception as e:  # noqa: BLE001
         print(f"ERROR cannot read {path}: {e}")
         return 2
+    if j.get("engine") == "trace":
+        from . import tracemon
+        return tracemon.replay(path, j)
     geom = {"4K_frames_tree_huge_4": "default", "4K_frames_tree_huge_2": "th2", "4K_frames_tree_huge_1": "th1",
             "4K_frames_tree_huge_8": "th8", "16K_frames_tree_huge_4": "16k", "16K_frames_tree_huge_2": "16k_th2"}.get(
         j.get("geometry", ""), "default")
